@@ -100,6 +100,11 @@ func (e *Exec) callFunc(s *State, f *Frame, in ssa.Value, fn *ssa.Function, args
 	}
 	// contract?
 	if con := e.w.contractFor(fn); con != nil && !(fn == e.fn && false) {
+		if con.Opaque && resType != nil {
+			// uninterpreted spec function: the same arguments give the same result, nothing else is known
+			setRes(e.pureResult(s, con, args, resType, fnKey(fn)))
+			return
+		}
 		if !con.Inline && !(s.pure > 0 && con.Pure && fn.Blocks != nil && e.w.loopsOf(fn).n == 0) {
 			e.applyContract(s, f, con, fn.Signature, args, pos, key, setRes, resType, fnKey(fn))
 			return
@@ -396,12 +401,37 @@ func resultList(res Value, sig *types.Signature) []Value {
 func (e *Exec) pureResult(s *State, con *Contract, args []Value, resType types.Type, name string) Value {
 	var ts []*Term
 	ok := true
-	for _, a := range args {
-		if t, isT := a.(*Term); isT && t.Sort.K != KArr {
-			ts = append(ts, t)
-		} else {
+	var flat func(v Value, depth int)
+	flat = func(v Value, depth int) {
+		if depth > 3 {
+			ok = false
+			return
+		}
+		switch x := v.(type) {
+		case *Term:
+			ts = append(ts, x)
+		case *StructV:
+			for _, f := range x.F {
+				flat(f, depth+1)
+			}
+		case *SoAV:
+			for _, f := range x.F {
+				flat(f, depth+1)
+			}
+		case *SliceV:
+			// a slice argument: its contents (arrays), offset and length
+			if x.Base == nil {
+				ok = false
+				return
+			}
+			flat(e.load(s, x.Base), depth+1)
+			ts = append(ts, x.Off, x.Len)
+		default:
 			ok = false
 		}
+	}
+	for _, a := range args {
+		flat(a, 0)
 	}
 	if ok && isScalar(resType) {
 		return e.c.UF("pure_"+name, scalarSort(resType), ts...)
